@@ -129,6 +129,35 @@ Definition mon_redirect_followed (c : pcase) : bool :=
       | _ => true
       end) (flatten (p_t_arch p))) (c_passes c).
 
+(* m8: a redirect target is never dropped for a reason that only applies to embedded assets: the Fresh child of a
+   GotRedirected node that normalises and is in scope (answer POk _ false _) is still in the tree after the next
+   pre-processing, whatever its path (the "removing child with empty path" rule is for GotChildren parents; theorem
+   pre_loop_keeps_redirect_target) *)
+Fixpoint mon_targets_from (prev : item) (ps : list prec) : bool :=
+  match ps with
+  | [] => true
+  | p :: r =>
+    forallb (fun np =>
+      match snd np with
+      | Some par =>
+        if status_eqb (st_of (fst np)) Fresh && status_eqb (st_of par) GotRedirected then
+          match assoc (id_of (fst np)) (p_pre p) with
+          | Some (POk u false _) =>
+            existsb (N.eqb (id_of (fst np))) (ids (p_t_pre p))
+            || existsb (fun m => N.eqb (url_of m) u) (flatten (p_t_pre p))   (* de-duplicated: another node carries its URL *)
+          | _ => true
+          end
+        else true
+      | None => true
+      end) (level_par (max_depth prev) None prev)
+    && mon_targets_from (p_t_fin p) r
+  end.
+Definition mon_redirect_target_kept (c : pcase) : bool :=
+  match c_passes c with
+  | [] => true
+  | p :: r => mon_targets_from (p_t_fin p) r
+  end.
+
 Definition mons (l : list pcase) :=
   mon_idx [mon_finished_once; mon_wf; mon_finish_iff; mon_unique_urls; mon_redirects; mon_depth; mon_fetch_once;
-           mon_redirect_followed] l.
+           mon_redirect_followed; mon_redirect_target_kept] l.
